@@ -1,8 +1,9 @@
 //! C14 — text formatting matches Rust's formatting of the same unsigned integer.
 //!
 //! Reduction (DESIGN.md C14): every formatting impl of bva and of `core`'s unsigned integers
-//! ends in exactly one call `Formatter::pad_integral(is_nonnegative, prefix, digits)` and does
-//! not otherwise touch the formatter; `pad_integral` is a deterministic function of the
+//! ends in exactly one call `Formatter::pad_integral(is_nonnegative, prefix, digits)` on the
+//! caller's formatter (the stub also records the width, fill, alignment and flags it sees, for a
+//! symbolic format specification, and both sides must see the same); `pad_integral` is a deterministic function of the
 //! formatter state and these three arguments. Under Kani `pad_integral` is *stubbed* to record
 //! its arguments, the harness formats the symbolic vector and the native integer of the same
 //! value with the same trait, and asserts the two recordings are identical. Equality of the
@@ -32,21 +33,33 @@ pub mod k {
         pub prefix: [u8; 2],
         pub dlen: usize,
         pub digits: [u8; super::MAXD],
+        // formatter state seen by pad_integral: (width, fill, align code, plus, alternate, zero pad)
+        pub opts: (Option<usize>, char, u8, bool, bool, bool),
     }
 
     pub static mut REC: [Rec; 2] = [
-        Rec { calls: 0, nonneg: false, plen: 0, prefix: [0; 2], dlen: 0, digits: [0; super::MAXD] },
-        Rec { calls: 0, nonneg: false, plen: 0, prefix: [0; 2], dlen: 0, digits: [0; super::MAXD] },
+        Rec { calls: 0, nonneg: false, plen: 0, prefix: [0; 2], dlen: 0, digits: [0; super::MAXD], opts: (None, ' ', 0, false, false, false) },
+        Rec { calls: 0, nonneg: false, plen: 0, prefix: [0; 2], dlen: 0, digits: [0; super::MAXD], opts: (None, ' ', 0, false, false, false) },
     ];
     pub static mut CUR: usize = 0;
 
-    pub fn pad_integral_stub<'a>(_f: &mut fmt::Formatter<'a>, is_nonnegative: bool, prefix: &str, buf: &str) -> fmt::Result
+    pub fn align_code(a: Option<fmt::Alignment>) -> u8 {
+        match a {
+            None => 0,
+            Some(fmt::Alignment::Left) => 1,
+            Some(fmt::Alignment::Right) => 2,
+            Some(fmt::Alignment::Center) => 3,
+        }
+    }
+
+    pub fn pad_integral_stub<'a>(f: &mut fmt::Formatter<'a>, is_nonnegative: bool, prefix: &str, buf: &str) -> fmt::Result
     where
         'a: 'a,
     {
         unsafe {
             let r = &mut REC[CUR];
             r.calls += 1;
+            r.opts = (f.width(), f.fill(), align_code(f.align()), f.sign_plus(), f.alternate(), f.sign_aware_zero_pad());
             r.nonneg = is_nonnegative;
             let p = prefix.as_bytes();
             assert!(p.len() <= 2, "C14: prefix longer than two characters");
@@ -84,7 +97,30 @@ pub mod k {
     }
 
     /// Run `fmt` of both sides with a recording `pad_integral` and compare the recordings.
+    /// The caller's format specification: (width, '*' fill?, alignment 0..=3, +, #, 0).
+    pub type Spec = (Option<u8>, bool, usize, bool, bool, bool);
+
+    fn options(s: Spec) -> fmt::FormattingOptions {
+        let mut o = fmt::FormattingOptions::new();
+        o.width(match s.0 {
+            Some(w) => Some(w as u16),
+            None => None,
+        });
+        o.fill(if s.1 { '*' } else { ' ' });
+        o.align(match s.2 {
+            1 => Some(fmt::Alignment::Left),
+            2 => Some(fmt::Alignment::Right),
+            3 => Some(fmt::Alignment::Center),
+            _ => None,
+        });
+        o.sign(if s.3 { Some(fmt::Sign::Plus) } else { None });
+        o.alternate(s.4);
+        o.sign_aware_zero_pad(s.5);
+        o
+    }
+
     pub fn same_pad_integral_call(
+        spec: Spec,
         a: &dyn Fn(&mut fmt::Formatter<'_>) -> fmt::Result,
         b: &dyn Fn(&mut fmt::Formatter<'_>) -> fmt::Result,
     ) {
@@ -92,17 +128,18 @@ pub mod k {
             let mut sink = Sink;
             CUR = 0;
             {
-                let mut f = fmt::Formatter::new(&mut sink, fmt::FormattingOptions::new());
+                let mut f = fmt::Formatter::new(&mut sink, options(spec));
                 assert!(a(&mut f).is_ok(), "C14: formatting the bit vector returned an error");
             }
             CUR = 1;
             {
-                let mut f = fmt::Formatter::new(&mut sink, fmt::FormattingOptions::new());
+                let mut f = fmt::Formatter::new(&mut sink, options(spec));
                 assert!(b(&mut f).is_ok(), "HARNESS: formatting the native integer returned an error");
             }
             let (x, y) = (&REC[0], &REC[1]);
             assert!(x.calls == 1, "C14: pad_integral not called exactly once");
             assert!(y.calls == 1, "HARNESS: core did not call pad_integral exactly once");
+            assert!(x.opts == y.opts, "C14: pad_integral saw a different formatter state (width/fill/alignment/flags) than for the native integer: the caller's format specification was not passed through");
             assert!(x.nonneg == y.nonneg, "C14: sign flag differs from the native integer's");
             assert!(x.plen == y.plen && x.prefix[0] == y.prefix[0] && x.prefix[1] == y.prefix[1], "C14: prefix differs from the native integer's");
             assert!(x.dlen == y.dlen, "C14: number of digits differs from the native integer's");
@@ -147,8 +184,11 @@ macro_rules! h_fmt {
             w!(ra.len == 0 || ra.v.bit(ra.len - 1), "empty, or top bit set (no leading zero digit)");
             w!(ra.v.is_zero(), "value zero");
             w!(ra.len < 8 || (!ra.v.is_zero() && ra.v.sig() + 4 < ra.len), "short, or at least one leading zero nibble");
+            // the caller's format specification (any width, either fill, any alignment, any flags)
+            let spec = (if nd::bool() { Some(nd::u8()) } else { None }, nd::bool(), nd::upto(3), nd::bool(), nd::bool(), nd::bool());
+            w!(spec.0.is_some() && spec.3 && spec.4, "width, + and # all given");
             #[cfg(kani)]
-            k::same_pad_integral_call(&|f| fmt::$trait::fmt(&a, f), &|f| fmt::$trait::fmt(&x, f));
+            k::same_pad_integral_call(spec, &|f| fmt::$trait::fmt(&a, f), &|f| fmt::$trait::fmt(&x, f));
             #[cfg(not(kani))]
             {
                 native_matrix!($spec, a, x);
@@ -215,4 +255,5 @@ h_fmt!(c14_t_bin_bvfix_l128, 131, Binary, "b", bvfix(128), u128);
 // values below ten: one digit, div_rem returns early (divisor has more significant bits); the
 // (unreachable) division loop is cut by the small unwind bound and its unwinding assertion
 h_fmt!(c14_q_dec_bvfix_l3, 4, Display, "", bvfix(3), u64);
+h_fmt!(c14_q_dec_bvdyn1_l3, 9, Display, "", bvdyn1(3), u64);
 h_fmt!(c14_t_dec_f8x1_l3, 6, Display, "", f8x1(3), u8);
